@@ -18,3 +18,7 @@ pub use connection::WriteCoalescingDelay;
 pub use connection_pool::PoolSize;
 pub(crate) use connection_pool::{ConnectivityChangeEvent, NodeConnectionPool, PoolConfig};
 pub(crate) mod tls;
+
+#[cfg(scylla_verif)]
+#[allow(missing_docs)]
+pub use connection::verif_hooks as verif_streams;
